@@ -81,6 +81,10 @@ class World:
             fam = _ip_family(host)
             if fam is not None:
                 ans = [(fam, host)]
+        if port == 0 and host in getattr(self, 'resolve_fail_port0', ()):
+            # a resolver that fails for the service-less lookup only (the one the connection-rate check makes), after the audit's
+            # own lookups succeeded: a fault that strikes late in a scan
+            ans = _socket.gaierror(-3, 'Temporary failure in name resolution')
         self.log(ev='resolve', host=host, port=port, family=int(family),
                  ok=not (ans is None or isinstance(ans, Exception)))
         if ans is None:
